@@ -49,6 +49,7 @@ def run(s):
     K.item_grid(s, 3, pretties=(False,), kmax=2, full=False, inters=(False,), item_names=K.LONG_NAMES)
     K.item_grid(s, 3, pretties=(False,), full=False, inters=(False,))
     K.many_unresolvable(s)
+    K.idless_cases(s)
     K.fuzz(s, 120 if q else 12000, K.kind_weights(1, 1, 0.3), steps=(5, 25),
            shape_weights=(0.6, 0.25, 0.12, 0.03), selfref=0.1, direct=0.3)
 
